@@ -106,6 +106,42 @@ Subset extensions used there:
   destructuring assignment `(lv, lv, ..) = e;` with targets `x`, `arr[i]`, `arr[i].0`, `_` (right-hand side first, targets
   left to right); `u64::saturating_mul` (the double-width product has a zero high half, else MAX);
   methods of `Limb` are looked up in the Chains unit first, then in the units listed under `limb_more`.
+Sixth unit group (round 4) (written to lean/CB/Gen/Modular.lean, imports CB.Gen.Chains): the modular add / sub / neg layer (C07) —
+`impl Limb { bitand, bitor, not, wrapping_neg, shl1 }` (src/limb/{bit_and,bit_or,bit_not,neg,shl}.rs; namespace
+CB.Gen.Modular.Limb), `impl<const LIMBS: usize> Uint<LIMBS> { bitand, bitand_limb, from_word, overflowing_shl1, add_mod,
+add_mod_special, double_mod, sub_mod, sub_mod_with_carry, sub_mod_special, neg_mod, neg_mod_special }`
+(src/uint/{bit_and,from,shl,add_mod,sub_mod,neg_mod}.rs; namespace CB.Gen.Modular.Uint) and the free forwarders
+`add_montgomery_form`, `double_montgomery_form`, `sub_montgomery_form` (src/modular/{add,sub}.rs; CB.Gen.Modular.Form).
+Subset extensions used there (switched on per unit, so the earlier generated files do not change):
+  the methods of one Rust type spread over SEVERAL units: a method call on a `Limb` / `Uint` value resolves to the unit
+  itself, then to the primary unit of the type (`limb` / `uint`, the Chains unit), then to the units listed under
+  `more_limb` / `more_uint`; `wrapping_neg/add/sub/mul` on a `Limb` receiver is the translated `Limb` method when one
+  exists (otherwise the builtin word operation, as before);
+  assignment through a place expression: `x.limbs[i] = e`, `x[i].0 = e`, `x.limbs[i].0 = e` (and the compound forms) are
+  `x.set i e` / `x.set i (Limb(e))`; `Self::ZERO` / `Uint::ZERO` of a `Uint<LIMBS>` is `List.replicate LIMBS 0#64` (the crate
+  defines it as `from_u8(0)`); `Limb::HI_BIT` / `Self::HI_BIT` is the constant 63 (`Limb::BITS - 1`);
+  `skip_asserts`: `assert!(cond, "msg");` is skipped like `debug_assert!` (the translation is the function's value on the
+  inputs that do not panic — `from_word` asserts `LIMBS >= 1`; panic freedom is a separate property);
+  `free_generic`: free functions `const fn f<const LIMBS: usize>(a: &Uint<LIMBS>, m: &Odd<Uint<LIMBS>>) -> Uint<LIMBS>`
+  (a unit with `self_ty=None`, `generic='LIMBS'`, gathered from whole files): `Uint<LIMBS>` is the limb list, `Odd<Uint<LIMBS>>`
+  a newtype over it (`.0` is the value).
+Last unit of that file (namespace CB.Gen.Modular.Reduction): src/modular/reduction.rs `montgomery_reduction_inner` (nested `while`
+loops over `&mut [Limb]` slices) and `montgomery_reduction` (C08).  Extensions (again per unit: `slices`, `nat_loops`):
+  `&[Limb]` / `&mut [Limb]` parameters are limb lists, `s.len()` is `s.length` (a `Nat`), `s[i]` / `s[i] = e` as for arrays;
+  a function with `&mut [Limb]` parameters RETURNS their final values, in parameter order, in front of its result
+  (`montgomery_reduction_inner .. : upper' × lower' × meta_carry`); a call is supported in the form `let r = f(&mut a.limbs, ..);`
+  (the passed variables are rebound to the returned values), anywhere else it is unsupported;
+  parameter lists with parentheses (`lower_upper: &(Uint<LIMBS>, Uint<LIMBS>)`), `let (mut a, mut b) = *pair;`;
+  `let mut x;` (declared, assigned later): a scratch variable — each assignment binds it for the rest of the enclosing block, it
+  is never loop state, and reading it where no assignment of the same block precedes is unsupported;
+  tuple assignment `(a, b) = e;`;  `usize` subtraction in indices and loop bounds (`upper[i + j - nlimbs]`, `j < nlimbs - i`) as
+  truncated `Nat` subtraction (equal whenever the Rust expression does not overflow);
+  a fifth `while` form (`nat_loops` units, used for every loop of the unit):
+    - `while j < BOUND { ..; j += k; }` where the counter is a literal OR a symbolic `Nat` at entry and may be used after the loop
+      (`j` runs on from the first inner loop into the second), BOUND any `Nat` expression the loop does not change, and the body
+      may contain further such loops: `<fn>_loop<n> captured.. : Nat → Nat → state.. → Nat × state` by recursion on a fuel
+      argument (called with BOUND - start), re-testing `j < BOUND` every round and returning the final counter in front of
+      the state; state = the outer variables assigned in the body or in a loop nested in it (declaration order).
 """
 import os, re, sys, json
 
@@ -118,6 +154,13 @@ WIDTH = {'u8': 8, 'u32': 32, 'u64': 64, 'u128': 128, 'Word': 64, 'WideWord': 128
 
 class Unsupported(Exception):
     pass
+
+
+# options of the unit being translated (set in main(); `skip_asserts`, `free_generic`, `slices`, `nat_loops`)
+OPTS = {}
+# functions with `&mut [Limb]` parameters: (namespace, name) -> positions of those parameters; the translation returns
+# the new values of those slices, in parameter order, followed by the function's result
+MUTP = {}
 
 
 # ------------------------------------------------------------------ tokenizer
@@ -236,7 +279,10 @@ class P:
         if self.at('-'):
             self.eat(); return ('neg', self.unary())
         if self.at('&'):
-            self.eat(); return self.unary()        # references are transparent
+            self.eat()
+            if self.at('mut') and self.peek(1)[0] == 'id':
+                self.eat()                         # `&mut place`
+            return self.unary()        # references are transparent
         if self.at('*'):
             self.eat(); return self.unary()
         return self.postfix()
@@ -362,6 +408,9 @@ class P:
         if self.at(':'):
             self.eat()
             ty = self.type_()
+        if self.at(';') and ty is None:
+            self.eat()
+            return ('declare', name)               # `let mut x;` — assigned later (a scratch variable)
         self.eat('op', '=')
         e = self.expr()
         self.eat('op', ';')
@@ -391,6 +440,59 @@ class P:
         rhs = self.expr()
         self.eat('op', ';')
         stmts.append(('assign_idx', name, idx, op, rhs))
+        return True
+
+    def tuple_assign(self, stmts):
+        """`(a, b) = e;` -> ('assigntuple', [a, b], e); leaves the position untouched when the statement is something else"""
+        save = self.i
+        self.eat('op', '(')
+        names = []
+        while self.peek()[0] == 'id' and self.peek(1)[0] == 'op' and self.peek(1)[1] in (',', ')'):
+            names.append(self.eat()[1])
+            if self.at(','):
+                self.eat()
+        if len(names) < 2 or not self.at(')') or self.peek(1) != ('op', '='):
+            self.i = save
+            return False
+        self.eat(); self.eat()
+        e = self.expr()
+        self.eat('op', ';')
+        stmts.append(('assigntuple', names, e))
+        return True
+
+    def place_assign(self, stmts):
+        """`x.limbs[i] op= e;`, `x[i].0 op= e;`, `x.limbs[i].0 op= e;` -> ('assign_idx', x, i, '=', e'); leaves the position
+        untouched when the statement is something else"""
+        save = self.i
+        try:
+            lhs = self.postfix()
+        except Unsupported:
+            self.i = save
+            return False
+        if not (self.peek()[0] == 'op' and self.peek()[1] in ASSIGN_OPS):
+            self.i = save
+            return False
+        word = lhs[0] == 'field' and lhs[2] == 0
+        place = lhs[1] if word else lhs
+        if place[0] != 'index':
+            self.i = save
+            return False
+        arr = place[1]
+        if arr[0] == 'nfield' and arr[2] == 'limbs':
+            arr = arr[1]
+        if arr[0] != 'var':
+            self.i = save
+            return False
+        op = self.eat()[1]
+        rhs = self.expr()
+        self.eat('op', ';')
+        cur = ('index', ('var', arr[1]), place[2])
+        if word:
+            cur = ('field', cur, 0)
+        val = rhs if op == '=' else ('bin', op[:-1], cur, rhs)
+        if word:
+            val = ('call', ['Limb'], [val])
+        stmts.append(('assign_idx', arr[1], place[2], '=', val))
         return True
 
     def block(self):
@@ -424,6 +526,10 @@ class P:
                 self.eat('op', ';')
                 stmts.append(('assign', name, op, rhs))
             elif tok[0] == 'id' and self.peek(1) == ('op', '[') and self.indexed_assign(stmts):
+                pass
+            elif tok[0] == 'id' and self.peek(1) in (('op', '['), ('op', '.')) and self.place_assign(stmts):
+                pass
+            elif tok == ('op', '(') and self.tuple_assign(stmts):
                 pass
             else:
                 e = self.expr()
@@ -562,6 +668,13 @@ def free_vars(x, acc):
         free_vars(x[4], acc)
     elif k == 'let':
         free_vars(x[3], acc)
+    elif k == 'assigntuple':
+        for v in x[1]:
+            if v not in acc:
+                acc.append(v)
+        free_vars(x[2], acc)
+    elif k == 'declare':
+        pass
     elif k == 'lettuple':
         free_vars(x[2], acc)
     elif k == 'struct':
@@ -585,10 +698,47 @@ FN_PRIV = re.compile(r'((?:\s*#\[[^\]]*\]\s*)*)\s*(?:pub(?:\([a-z]+\))?\s+)?cons
 
 
 FN_ANY = re.compile(r'((?:\s*#\[[^\]]*\]\s*)*)\s*(?:pub(?:\([a-z]+\))?\s+)?const\s+fn\s+(\w+)\s*\(([^)]*)\)\s*(?:->\s*([^{]+))?\{')
+FN_GEN = re.compile(r'((?:\s*#\[[^\]]*\]\s*)*)\s*(?:pub(?:\([a-z]+\))?\s+)?const\s+fn\s+(\w+)\s*(?:<[^>()]*>)?\s*\(([^)]*)\)\s*->\s*([^{]+)\{')
+
+
+FN_GEN_HEAD = re.compile(r'((?:\s*#\[[^\]]*\]\s*)*)\s*(?:pub(?:\([a-z]+\))?\s+)?const\s+fn\s+(\w+)\s*(?:<[^>()]*>)?\s*\(')
+
+
+def split_top(ps):
+    """split at the commas outside parentheses / brackets / angle brackets"""
+    out, depth, cur = [], 0, ''
+    for ch in ps:
+        if ch in '([<':
+            depth += 1
+        elif ch in ')]>':
+            depth -= 1
+        if ch == ',' and depth == 0:
+            out.append(cur); cur = ''
+        else:
+            cur += ch
+    out.append(cur)
+    return out
 
 
 def find_functions(src, private=False):
     """yield (attrs, name, params, ret, body)"""
+    if OPTS.get('free_generic'):
+        # parameter lists may contain parentheses (`&(Uint<LIMBS>, Uint<LIMBS>)`): scan them balanced
+        for m in FN_GEN_HEAD.finditer(src):
+            depth, j = 1, m.end()
+            while depth and j < len(src):
+                depth += {'(': 1, ')': -1}.get(src[j], 0)
+                j += 1
+            r = re.compile(r'\s*->\s*([^{;]+)\{').match(src, j)
+            if not r:
+                continue
+            params = src[m.end():j - 1]
+            depth, k2 = 1, r.end()
+            while depth and k2 < len(src):
+                depth += {'{': 1, '}': -1}.get(src[k2], 0)
+                k2 += 1
+            yield m.group(1), m.group(2), params, r.group(1).strip(), src[r.end():k2 - 1]
+        return
     for m in (FN_ANY if private == 'any' else FN_PRIV if private else FN).finditer(src):
         depth, j = 1, m.end()
         while depth and j < len(src):
@@ -599,7 +749,7 @@ def find_functions(src, private=False):
 
 def parse_params(ps, self_ty):
     out = []
-    for p in [x.strip() for x in ps.split(',') if x.strip()]:
+    for p in [x.strip() for x in split_top(ps) if x.strip()]:
         if p in ('&self', 'self', 'mut self', '&mut self'):
             out.append(('self', self_ty))
         else:
@@ -651,6 +801,10 @@ def ty_of(t, self_ty):
         return tuple(ty_of(x, self_ty) for x in m.group(1).split(','))
     if re.match(r'(mut\s+)?\[\s*Limb\s*\]$', t):
         return 'uint'        # a slice `&[Limb]` / `&mut [Limb]`: the list of its limbs (`.len()` is `.length`)
+    if OPTS.get('free_generic') and re.match(r'Uint\s*<\s*LIMBS\s*>$', t):
+        return 'uint'
+    if OPTS.get('free_generic') and re.match(r'Odd\s*<\s*Uint\s*<\s*LIMBS\s*>\s*>$', t):
+        return 'odduint'     # `Odd<Uint<LIMBS>>`: a newtype over the limb list, `.0` is the value
     raise Unsupported('type ' + t)
 
 
@@ -666,6 +820,8 @@ def lean_ty(t):
     if isinstance(t, str) and t.startswith('wrap:'):
         return 'BitVec 64'
     if t == 'uint':
+        return 'List (BitVec 64)'
+    if t == 'odduint':
         return 'List (BitVec 64)'
     if t == 'nat':
         return 'Nat'
@@ -724,6 +880,7 @@ class Gen:
 
     def reset(self, fname):
         self.fname, self.cenv, self.aux, self.pn, self.nloop = fname, {}, [], 0, 0
+        self.mutparams, self.allow_mut = [], False
 
     def const(self, e):
         """fold a constant Nat expression (shift amounts, T::BITS - 1, untyped literal counters) or return None"""
@@ -736,6 +893,8 @@ class Gen:
             return WIDTH[e[1][0]]
         if k == 'path' and e[1] == ['Limb', 'BITS']:
             return 64
+        if k == 'path' and len(e[1]) == 2 and e[1][1] == 'HI_BIT' and (e[1][0] == 'Limb' or (e[1][0] == 'Self' and self.self_ty == 'Limb')):
+            return 63
         if k == 'bin' and e[1] in '+-*':
             a, b = self.const(e[2]), self.const(e[3])
             if a is None or b is None:
@@ -761,8 +920,17 @@ class Gen:
             return (c[0], c[1].get(name)) if c else (None, None)
         if where in ('limb', 'uint'):
             # a method of `Limb` / `Uint<LIMBS>`: the unit itself when it is the impl of that type, else the unit holding it
+            more = ([self.ext[where]] if self.ext.get(where) else []) + list(self.ext.get(where + '+') or [])
             if self.self_ty == {'limb': 'Limb', 'uint': 'Uint'}[where]:
-                return (self.ns, self.sigs[name]) if name in self.sigs else (None, None)
+                if name in self.sigs:
+                    return (self.ns, self.sigs[name])
+                for ns, sg in more:          # the methods of the type that live in other units (Chains, `more_limb`/`more_uint`)
+                    if name in sg:
+                        return ns, sg[name]
+                return (None, None)
+            for ns, sg in more[1:]:
+                if name in sg and not (more[0][1].get(name)):
+                    return ns, sg[name]
             c = self.ext.get(where)
             if not (c and name in c[1]):
                 for c2 in self.ext.get(where + '_more', []):      # further units holding methods of the same type
@@ -801,6 +969,8 @@ class Gen:
         if k == 'var':
             if e[1] not in env:
                 raise Unsupported('unknown variable ' + e[1])
+            if env[e[1]][1] == 'undef':
+                raise Unsupported('read of a declared but (here) unassigned variable ' + e[1])
             if env[e[1]][1] == 'lit':
                 if want == 'nat':
                     return env[e[1]][0], 'nat'
@@ -820,6 +990,12 @@ class Gen:
                 return {'ZERO': '0#64', 'ONE': '1#64', 'MAX': '(~~~0#64)'}[p[1]], 'wrap:1'
             if len(p) == 2 and p[0] == 'Limb' and p[1] == 'BITS':
                 return '64#32', 32
+            if len(p) == 2 and p[1] == 'HI_BIT' and (p[0] == 'Limb' or (p[0] == 'Self' and self.self_ty == 'Limb')):
+                return '63#32', 32
+            if (len(p) == 2 and p[1] == 'ZERO' and self.generic and env.get(self.generic, (None, None))[1] == 'nat'
+                    and (p[0] == 'Uint' or (p[0] == 'Self' and self.self_ty == 'Uint'))):
+                # `Uint::ZERO` (`from_u8(0)`): all limbs zero
+                return f'(List.replicate {env[self.generic][0]} 0#64)', 'uint'
             raise Unsupported('path ' + '::'.join(p))
         if k == 'field':
             t, ty = self.ex(e[1], env)
@@ -830,6 +1006,8 @@ class Gen:
                 return t, (64 if d == 1 else f'wrap:{d - 1}')
             if isinstance(ty, tuple):
                 return f'({t}).{e[2] + 1}', ty[e[2]]
+            if ty == 'odduint' and e[2] == 0:
+                return t, 'uint'
             raise Unsupported('field of ' + str(ty))
         if k == 'index':
             t, ty = self.ex(e[1], env)
@@ -929,6 +1107,13 @@ class Gen:
                         raise Unsupported('shift amount')
                     return f'(BitVec.sshiftRight {atom(t)} {c})', ty      # arithmetic shift of a signed value
                 return f'({t} {lop} {c})', ty
+            if want == 'nat' and op == '-' and OPTS.get('nat_loops'):
+                # `usize` subtraction in an index / loop bound: truncated subtraction of `Nat` (equal whenever Rust does not
+                # overflow; an overflowing `usize` subtraction panics in debug builds and is never in range as an index)
+                a, ta = self.ex(e[2], env, 'nat'); b, tb = self.ex(e[3], env, 'nat')
+                if ta != 'nat' or tb != 'nat':
+                    raise Unsupported('index arithmetic')
+                return f'({a} - {b})', 'nat'
             if want == 'nat' and op == '+':
                 a, ta = self.ex(e[2], env, 'nat'); b, tb = self.ex(e[3], env, 'nat')
                 if ta != 'nat' or tb != 'nat':
@@ -957,6 +1142,8 @@ class Gen:
             if ta == 'nat' and op in ('==', '!=', '<', '>', '<=', '>='):
                 # a comparison between limb counts / indices (`assert!(LIMBS >= 1)`)
                 return f'(decide ({a} {dict([("==", "="), ("!=", "≠"), ("<", "<"), (">", ">"), ("<=", "≤"), (">=", "≥")])[op]} {b}))', 'bool'
+            if ta == 'nat' and OPTS.get('nat_loops') and op in ('+', '-'):
+                return f'({a} {op} {b})', 'nat'          # `let idx = i + j;` (truncated subtraction, see above)
             if ta == 'nat':
                 raise Unsupported('index arithmetic')
             if op in ('==', '!=', '<', '>', '<=', '>='):
@@ -981,6 +1168,11 @@ class Gen:
         if k == 'method':
             name, recv, args = e[1], e[2], e[3]
             r, tr = self.ex(recv, env)
+            if (tr == 'wrap:1' and name in ('wrapping_add', 'wrapping_sub', 'wrapping_mul', 'wrapping_neg')
+                    and self.lookup(name, 'limb')[1] is not None):
+                return self.call(name, [recv] + args, env, 'limb')     # the translated `Limb` method rather than the builtin
+            if tr == 'uint' and name in ('wrapping_add', 'wrapping_sub', 'wrapping_mul', 'wrapping_neg'):
+                return self.call(name, [recv] + args, env, 'uint')     # never the word operation on a limb list
             if name == 'len' and tr == 'uint' and not args:
                 return f'{atom(r)}.length', 'nat'
             if name == 'saturating_mul' and isinstance(tr, int) and len(args) == 1:
@@ -998,6 +1190,8 @@ class Gen:
             if name == 'overflowing_add':
                 b, tb = self.ex(args[0], env, tr)
                 return f'(({r} + {b}), decide (({r} + {b}) < {r}))', (tr, 'bool')
+            if name == 'len' and tr == 'uint' and not args and OPTS.get('slices'):
+                return f'{atom(r)}.length', 'nat'
             if name == 'leading_zeros' and isinstance(tr, int) and not args:
                 return (f'(BitVec.clz {atom(r)})' if tr == 32 else f'((BitVec.clz {atom(r)})).setWidth 32'), 32
             if tr == 'choice':
@@ -1081,6 +1275,9 @@ class Gen:
         ptys, rty = sig
         if len(ptys) != len(args):
             raise Unsupported('arity ' + name)
+        if (ns, name) in MUTP and not self.allow_mut:
+            raise Unsupported('call of a function with `&mut` slice parameters outside `let x = f(..);`')
+        self.allow_mut = False
         parts = []
         for a, pt in zip(args, ptys):
             t, ty = self.ex(a, env, pt)
@@ -1105,6 +1302,49 @@ class Gen:
         """execute statements symbolically: appends lean `let` lines, updates env (rust name -> (lean text, type))"""
         for st in stmts:
             k = st[0]
+            if k == 'declare':
+                if declared is not None:
+                    declared.add(st[1])
+                env[st[1]] = ('', 'undef')
+                self.cenv.pop(st[1], None)
+                continue
+            if k == 'assigntuple':
+                _, names, e = st
+                t, ty = self.ex(e, env)
+                if not isinstance(ty, tuple) or len(ty) != len(names):
+                    raise Unsupported('tuple assignment of a non-tuple')
+                if any(v not in env or (env[v][1] != 'undef' and env[v][1] != ty[idx]) for idx, v in enumerate(names)):
+                    raise Unsupported('tuple assignment changes a type / unknown variable')
+                self.pn += 1
+                tmp = f'p{self.pn}'
+                lines.append(f'let {tmp} := {t}')
+                for idx, v in enumerate(names):
+                    self.bind(v, f'{tmp}{proj(idx, len(names))}', ty[idx], env, lines)
+                continue
+            if k == 'let' and st[3][0] == 'call' and self.mut_call(st[3]) is not None:
+                # `let r = f(&mut a.limbs, &mut b.limbs, ..);` — f returns (a', b', r)
+                _, name, ann, e = st
+                idxs = self.mut_call(e)
+                places = []
+                for pi in idxs:
+                    a = e[2][pi]
+                    if a[0] == 'nfield' and a[2] == 'limbs':
+                        a = a[1]
+                    if a[0] != 'var' or a[1] not in env or env[a[1]][1] != 'uint' or a[1] in places:
+                        raise Unsupported('`&mut` argument is not a distinct limb-array variable')
+                    places.append(a[1])
+                self.allow_mut = True
+                t, ty = self.ex(e, env)
+                self.allow_mut = False
+                self.pn += 1
+                tmp = f'p{self.pn}'
+                lines.append(f'let {tmp} := {t}')
+                for idx, v in enumerate(places):
+                    self.bind(v, f'{tmp}{proj(idx, len(ty))}', ty[idx], env, lines)
+                if declared is not None:
+                    declared.add(name)
+                self.bind(name, f'{tmp}{proj(len(ty) - 1, len(ty))}', ty[-1], env, lines)
+                continue
             if k == 'let':
                 _, name, ann, e = st
                 if declared is not None:
@@ -1136,6 +1376,12 @@ class Gen:
                     raise Unsupported('assignment to unknown ' + name)
                 e = rhs if op == '=' else ('bin', op[:-1], ('var', name), rhs)
                 cur = env[name][1]
+                if cur == 'undef':
+                    if op != '=':
+                        raise Unsupported('compound assignment to an unassigned variable')
+                    t, ty = self.ex(e, env)
+                    self.bind(name, t, ty, env, lines)
+                    continue
                 if cur == 'lit':
                     c = self.const(e)
                     if c is None or c < 0:
@@ -1238,7 +1484,117 @@ class Gen:
         for v in declared:
             self.cenv.pop(v, None)
 
+    def mut_call(self, e):
+        """positions of the `&mut` slice parameters when `e` calls a function that has some, else None"""
+        p = e[1]
+        if len(p) != 1:
+            return None
+        ns, sig = self.lookup(p[0], 'bare')
+        return MUTP.get((ns, p[0])) if sig is not None else None
+
+    def loop_names(self, stmts, assigned, declared):
+        """names assigned / declared anywhere in a statement list (nested loops included), in order of first occurrence"""
+        for st in stmts:
+            k = st[0]
+            if k in ('assign', 'assign_idx'):
+                if st[1] not in assigned:
+                    assigned.append(st[1])
+            elif k == 'assigntuple':
+                for v in st[1]:
+                    if v not in assigned:
+                        assigned.append(v)
+            elif k in ('let', 'declare'):
+                declared.add(st[1])
+            elif k == 'lettuple':
+                declared.update(v for v in st[1])
+            elif k == 'while':
+                self.loop_names(st[2], assigned, declared)
+
+    def emit_loop_nat(self, cond, body, env, lines):
+        """(`nat_loops` units) `while j < BOUND { body; j += k; }` with a `Nat` counter that is a literal or a symbolic value at
+        entry and is used after the loop (`j` runs on into the next loop), BOUND any `Nat` expression over variables the loop
+        does not change (`nlimbs - i`), a body that may contain further such loops:
+            `<fn>_loop<n> captured.. : Nat → Nat → state.. → Nat × state`
+        by recursion on a fuel argument (called with BOUND - start; suffices since k >= 1), the second `Nat` being the counter;
+        every round re-tests `j < BOUND`; the final counter is returned in front of the state.
+        state = the outer variables assigned in the body or in a loop nested in it, captured = the other outer variables
+        read, both in declaration order.  Variables declared without a value (`let mut x;`) are scratch: an assignment
+        binds them for the rest of the enclosing body only, they are never loop state."""
+        if not (cond[0] == 'bin' and cond[1] == '<' and cond[2][0] == 'var'):
+            raise Unsupported('loop form')
+        i = cond[2][1]
+        if i not in env or env[i][1] not in ('lit', 'nat'):
+            raise Unsupported('loop counter')
+        if not body or not (body[-1][0] == 'assign' and body[-1][1] == i and body[-1][2] == '+='
+                            and body[-1][3][0] == 'lit' and body[-1][3][1] >= 1):
+            raise Unsupported('loop form: the body must end with the increment of the counter')
+        step, rest = body[-1][3][1], body[:-1]
+        assigned, declared_in = [], set()
+        self.loop_names(rest, assigned, declared_in)
+        if declared_in & set(env):
+            raise Unsupported('loop body shadows an outer variable')
+        outer_assigned = [v for v in assigned if v not in declared_in]
+        if i in outer_assigned or any(v not in env for v in outer_assigned):
+            raise Unsupported('loop state')
+        state = [v for v in env if v in outer_assigned and env[v][1] != 'undef']
+        scratch = [v for v in env if env[v][1] == 'undef']
+        if not state or any(env[v][1] in ('lit', 'nat') for v in state):
+            raise Unsupported('loop state')
+        if set(free_vars(cond[3], [])) & set(outer_assigned + [i]):
+            raise Unsupported('loop bound changes inside the loop')
+        used = free_vars(rest, []) + free_vars(cond[3], [])
+        captured = [v for v in env if v in used and v not in state and v != i and env[v][1] != 'undef']
+        if any(env[v][1] == 'lit' for v in captured):
+            raise Unsupported('loop body reads an untyped counter')
+        self.nloop += 1
+        aux = f'{self.fname}_loop{self.nloop}'
+        env2 = {}
+        for v in captured:
+            env2[v] = (self.fresh('self_' if v == 'self' else v, env2), env[v][1])
+        styp = [env[s][1] for s in state]
+        for s_, ty in zip(state, styp):
+            env2[s_] = (self.fresh(s_, env2), ty)
+        nvar = self.fresh('n', env2)
+        env2['\0n'] = (nvar, 'nat')
+        env2[i] = (self.fresh(i, env2), 'nat')
+        ivar = env2[i][0]
+        for v in scratch:
+            env2[v] = ('', 'undef')
+        pat = ', '.join(env2[s_][0] for s_ in state)
+        capb = ''.join(f' ({env2[v][0]} : {lean_ty(env2[v][1])})' for v in captured)
+        capa = ''.join(f' {env2[v][0]}' for v in captured)
+        bound, tb = self.ex(cond[3], env2, 'nat')
+        if tb != 'nat':
+            raise Unsupported('loop bound of type ' + str(tb))
+        saved_cenv = dict(self.cenv)
+        self.cenv = {}
+        lines2, declared = [], set()
+        self.run(rest, env2, lines2, declared)
+        self.cenv = saved_cenv
+        if any(env2[s_][1] != ty for s_, ty in zip(state, styp)) or env2[i] != (ivar, 'nat'):
+            raise Unsupported('loop state changes type')
+        res = ' × '.join(['Nat'] + [lean_ty(t) for t in styp])
+        text = (f'@[gen_defs] def {aux}{capb} : Nat → Nat → ' + ' → '.join(lean_ty(t) for t in styp) + f' → {res}\n'
+                + f'  | 0, {ivar}, {pat} => ({ivar}, {pat})\n'
+                + f'  | {nvar} + 1, {ivar}, {pat} =>\n    if {ivar} < {bound} then\n      ' + '\n      '.join(lines2)
+                + f'\n      {self.ns}.{aux}{capa} {nvar} ({ivar} + {step}) ' + ' '.join(env2[s_][0] for s_ in state)
+                + f'\n    else ({ivar}, {pat})')
+        self.aux.append(text)
+        bound_out, _ = self.ex(cond[3], env, 'nat')
+        start = env[i][0]
+        callt = (f'({self.ns}.{aux}' + ''.join(f' {atom(env[v][0])}' for v in captured) + f' ({bound_out} - {start}) {atom(start)} '
+                 + ' '.join(atom(env[s_][0]) for s_ in state) + ')')
+        self.pn += 1
+        tmp = f'p{self.pn}'
+        lines.append(f'let {tmp} := {callt}')
+        self.cenv.pop(i, None)
+        self.bind(i, f'{tmp}.1', 'nat', env, lines)
+        for idx, s_ in enumerate(state):
+            self.bind(s_, f'{tmp}{proj(idx + 1, len(state) + 1)}', styp[idx], env, lines)
+
     def do_while(self, cond, body, env, lines):
+        if OPTS.get('nat_loops'):
+            return self.emit_loop_nat(cond, body, env, lines)
         c = self.cond_const(cond)
         if c is not None:
             # (1a) `let mut i = K; while i < N { ..; i += 1; }` with literal K, N and a body that does not read `i`:
@@ -1458,6 +1814,8 @@ class Gen:
         body = re.sub(r'//[^\n]*', '', body)
         body = re.sub(r'#\[[^\]]*\]', '', body)
         body = strip_debug_asserts(body)
+        if OPTS.get('skip_asserts'):
+            body = strip_debug_asserts(re.sub(r'\bassert\s*!', 'debug_assert!', re.sub(r'"[^"\n]*"', '0', body)))
         body = self.take_asserts(body, env)
         if outs:
             body, self.guards = strip_panic_guards(body)
@@ -1476,6 +1834,9 @@ class Gen:
         lines = []
         env = dict(env)
         self.run(stmts, env, lines)
+        if self.mutparams:
+            # the new values of the `&mut` slice parameters, then the result
+            final = ('tuple', [('var', v) for v in self.mutparams] + [final])
         t, ty = self.ex(final, env, rty)
         if ty != rty and not (ty == 64 and rty == 'choice') and not (ty == 'choice' and rty == 64):
             raise Unsupported(f'return type {ty} vs {rty}')
@@ -1555,7 +1916,7 @@ def impl_blocks(src, self_ty):
 def translate_file(path, ns, self_ty, want=None, private=False, ext=None):
     if isinstance(path, list):
         # a unit gathered from several files: the inherent impl blocks of `self_ty` in each of them
-        src = '\n'.join(impl_blocks(open(f).read(), self_ty) for f in path)
+        src = '\n'.join((impl_blocks(open(f).read(), self_ty) if self_ty else open(f).read()) for f in path)
     else:
         src = open(path).read()
         if self_ty:
@@ -1579,7 +1940,7 @@ def translate_file(path, ns, self_ty, want=None, private=False, ext=None):
         try:
             ps = parse_params(params, self_ty)
             ptys = [ty_of(t, self_ty) if n != 'self' else ('choice' if self_ty == 'ConstChoice' else ty_of('Self', self_ty)) for n, t in ps]
-            mutp = [n for n, t in ps if n != 'self' and t.startswith('mut ')]
+            mutp = [n for n, t in ps if n != 'self' and t.startswith('mut ')] if private == 'any' else []   # G10's convention (MulRows unit)
             if not ret:
                 # no return type: the function RETURNS the final values of its `&mut` slice parameters (in parameter order)
                 if not mutp:
@@ -1592,6 +1953,10 @@ def translate_file(path, ns, self_ty, want=None, private=False, ext=None):
                 rty = ty_of(ret, self_ty)
             if any(t is None for t in ptys) or rty is None:
                 raise Unsupported('type')
+            mut = [k for k, (n, t) in enumerate(ps) if re.match(r'mut\s+\[', t)] if OPTS.get('slices') else []   # G11's convention (units with `slices`)
+            if mut:
+                MUTP[(ns, name)] = mut
+                rty = tuple([ptys[k] for k in mut] + [rty])
             sigs[name] = (ptys, rty); plist[name] = ps
         except (Unsupported, ValueError, IndexError, KeyError, TypeError):
             pass
@@ -1606,6 +1971,7 @@ def translate_file(path, ns, self_ty, want=None, private=False, ext=None):
             env = {}
             binders = []
             g.reset(name)
+            g.mutparams = [plist[name][k][0] for k in MUTP.get((ns, name), [])]
             if g.generic:
                 env[g.generic] = (g.generic, 'nat')
                 binders.append(f'({g.generic} : Nat)')
@@ -1684,6 +2050,26 @@ FILES = [
              desc='schoolbook multiplication over limb slices: nested `while` loops, `lo`/`hi` addressed by an index test',
              want=['schoolbook_multiplication', 'schoolbook_squaring'], limb_more=['limb_mul']),
     ]),
+    # the modular add / sub / neg layer (C07): mask helpers, `add_mod` .. `neg_mod_special`, the Montgomery-form forwarders
+    ('Modular.lean', ['CB.Gen.Chains', None, 'set_option linter.unusedVariables false'], [
+        dict(key='limb_mod', rel=['src/limb/bit_and.rs', 'src/limb/bit_or.rs', 'src/limb/bit_not.rs', 'src/limb/neg.rs', 'src/limb/shl.rs'],
+             ns='CB.Gen.Modular.Limb', self_ty='Limb', desc='impl Limb: bitwise helpers of the modular layer',
+             want=['bitand', 'bitor', 'not', 'wrapping_neg', 'shl1'], use=['prim']),
+        dict(key='uint_mod', rel=['src/uint/bit_and.rs', 'src/uint/from.rs', 'src/uint/shl.rs', 'src/uint/add_mod.rs',
+                                  'src/uint/sub_mod.rs', 'src/uint/neg_mod.rs'],
+             ns='CB.Gen.Modular.Uint', self_ty='Uint', generic='LIMBS', skip_asserts=True, more_limb=['limb_mod'],
+             desc='impl<const LIMBS: usize> Uint<LIMBS>: mask helpers, add_mod / sub_mod / neg_mod and their special-modulus forms',
+             want=['bitand', 'bitand_limb', 'from_word', 'overflowing_shl1', 'add_mod', 'add_mod_special', 'double_mod',
+                   'sub_mod', 'sub_mod_with_carry', 'sub_mod_special', 'neg_mod', 'neg_mod_special']),
+        dict(key='form_mod', rel=['src/modular/add.rs', 'src/modular/sub.rs'], ns='CB.Gen.Modular.Form', self_ty=None,
+             generic='LIMBS', free_generic=True, more_limb=['limb_mod'], more_uint=['uint_mod'],
+             desc='Montgomery-form add / double / sub: forwarders to add_mod / double_mod / sub_mod',
+             want=['add_montgomery_form', 'double_montgomery_form', 'sub_montgomery_form']),
+        dict(key='redc', rel=['src/modular/reduction.rs'], ns='CB.Gen.Modular.Reduction', self_ty=None,
+             generic='LIMBS', free_generic=True, slices=True, nat_loops=True, more_limb=['limb_mod'], more_uint=['uint_mod'],
+             desc='Montgomery reduction: the nested loops of montgomery_reduction_inner, and montgomery_reduction',
+             want=['montgomery_reduction_inner', 'montgomery_reduction']),
+    ]),
 ]
 
 AUX = re.compile(r'\w+_loop\d+$')
@@ -1719,6 +2105,7 @@ def main():
     report = dict(translated=[], kept_last=[], missing=[])
     reg = {}     # unit key -> (namespace, signatures of the functions translated NOW)
     STRUCTS.clear()
+    MUTP.clear()
     for fname, imports, units in FILES:
         out_path = os.path.join(GEN, fname)
         last = read_last(out_path)
@@ -1748,6 +2135,10 @@ def main():
             ext = dict(choice=reg.get('choice'), limb=reg.get('limb'), uint=reg.get('uint'),
                        use=[reg[k] for k in u.get('use', []) if k in reg],
                        limb_more=[reg[k] for k in u.get('limb_more', []) if k in reg])
+            ext['limb+'] = [reg[k] for k in u.get('more_limb', []) if k in reg]
+            ext['uint+'] = [reg[k] for k in u.get('more_uint', []) if k in reg]
+            OPTS.clear()
+            OPTS.update({k: u[k] for k in ('skip_asserts', 'free_generic', 'slices', 'nat_loops') if u.get(k)})
             try:
                 order, out, failed, sigs = translate_file(path, ns, self_ty, u.get('want'), u.get('private', False), ext)
             except (Unsupported, OSError) as ex:
